@@ -1037,11 +1037,19 @@ pub fn gen_history(prop: &str, rng: &mut Rng, hno: u64) -> HCfg {
         "hammer" => [60, 12, 10, 4, 0, 2, 4, 2, 0, 0],
         _ => [34, 5, 22, 4, if prop == "C08" { 0 } else { 3 }, 4, 12, 5, clear_w, if prop == "C01" { 3 } else { 0 }],
     };
+    let buffer_size = if mode == "pairs" || mode == "hammer" { 32 * 1024 } else { *rng.pick(&[1usize, 2, 4, 16, 1024, 32 * 1024]) };
+    let mut w = w;
+    if mode == "mixed" && buffer_size <= 16 && rng.chance(1, 2) {
+        // no client-side wait() calls: with a tiny buffer they mostly fail (full buffer), and a history
+        // in which a call reported an error is outside C06's statement; these histories keep the full
+        // buffer (removes and inserts racing it) without any reported error on the async flavours
+        w[7] = 0;
+    }
     HCfg {
         cfg: Cfg {
             num_counters: *rng.pick(&[100usize, 1000, 10_000]),
             max_cost: if mode == "pairs" || mode == "hammer" { 1 << 40 } else { max_cost },
-            buffer_size: if mode == "pairs" || mode == "hammer" { 32 * 1024 } else { *rng.pick(&[1usize, 2, 4, 16, 1024, 32 * 1024]) },
+            buffer_size,
             buffer_items: *rng.pick(&[0usize, 1, 2, 3, 64]),
             metrics: true,
             ignore_internal: true,
